@@ -27,6 +27,7 @@ def AbOk [Zero R] [Add R] [Mul R] [Neg R] (a b : Arr R) (xa xb : List Nat) : Pro
     ∧ (∀ K V, alookup c.blocks K = some V → ∀ J, inBox V.shape J = true →
         c.elem K J =
           (tensordotBlockwise a b (freeAxes a.ndim xa) xa xb (freeAxes b.ndim xb)).elem K J)
+    ∧ List.Forall₂ SizeLe c.indices (without a.indices xa ++ without b.indices xb)
     ∧ (∀ K V, alookup c.blocks K = some V →
         Arr.blockShape? (without a.indices xa ++ without b.indices xb) K = some V.shape)
 
@@ -43,13 +44,18 @@ theorem abOk_of_aligned [AddCommMonoid R] [Mul R] [Neg R] (a b : Arr R) (xa xb :
         (freeAxes a.ndim xa) xa xb (freeAxes b.ndim xb)).elem K J)
     (hsec : ∀ s ∈ (tensordotBlockwise (dropMisaligned a b xa xb).1 (dropMisaligned a b xa xb).2
         (freeAxes a.ndim xa) xa xb (freeAxes b.ndim xb)).sectors, s ∈ c.sectors)
-    (hshape : ∀ K V, alookup c.blocks K = some V →
-      Arr.blockShape? (permuted (dropMisaligned a b xa xb).1.indices (freeAxes a.ndim xa)
-        ++ permuted (dropMisaligned a b xa xb).2.indices (freeAxes b.ndim xb)) K = some V.shape) :
+    (hframe : List.Forall₂ SizeLe c.indices
+      (permuted (dropMisaligned a b xa xb).1.indices (freeAxes a.ndim xa)
+        ++ permuted (dropMisaligned a b xa xb).2.indices (freeAxes b.ndim xb))) :
     AbOk a b xa xb := by
   have hblk := tensordotBlockwise_blocks_dropMisaligned a b (freeAxes a.ndim xa) xa xb (freeAxes b.ndim xb)
   have hpa : a.phases = [] := phases_nil_of_validB ha hfa
-  refine ⟨c, hflow, hcv, f1, f2.trans hfa.symm, f3, f4.trans hpa.symm, f5, ?_, ?_, ?_, ?_⟩
+  have hfr : List.Forall₂ SizeLe c.indices (without a.indices xa ++ without b.indices xb) := by
+    rw [without_eq_permuted_freeAxes, without_eq_permuted_freeAxes]
+    refine forall₂_trans (r := SizeLe) (fun _ _ _ h1 h2 => SizeLe.trans h1 h2) hframe (forall₂_append ?_ ?_)
+    · exact permuted_dropUnused_sizeLe a.indices _ _ (fun x hx => (mem_freeAxes.mp hx).1)
+    · exact permuted_dropUnused_sizeLe b.indices _ _ (fun x hx => (mem_freeAxes.mp hx).1)
+  refine ⟨c, hflow, hcv, f1, f2.trans hfa.symm, f3, f4.trans hpa.symm, f5, ?_, ?_, ?_, hfr, ?_⟩
   · rw [hrank, tensordotBlockwise_rank]
   · intro s hs
     apply hsec
@@ -60,10 +66,33 @@ theorem abOk_of_aligned [AddCommMonoid R] [Mul R] [Neg R] (a b : Arr R) (xa xb :
     rw [hval K V hl J hJ]
     exact Arr.elem_congr hblk rfl K J
   · intro K V hl
-    rw [without_eq_permuted_freeAxes, without_eq_permuted_freeAxes]
-    refine blockShape?_weaken (forall₂_append ?_ ?_) K _ (hshape K V hl)
-    · exact permuted_dropUnused_sizeLe a.indices _ _ (fun x hx => (mem_freeAxes.mp hx).1)
-    · exact permuted_dropUnused_sizeLe b.indices _ _ (fun x hx => (mem_freeAxes.mp hx).1)
+    have hs := Arr.shapesOk_of_validB hcv (K, V) (alookup_mem hl)
+    exact blockShape?_weaken hfr K _ hs
+
+/-- all three groups non-empty (from the aligned-operand context) -/
+theorem abOk_general_ctx [AddCommMonoid R] [Mul R] [Neg R]
+    (hz1 : ∀ x : R, 0 * x = 0) (hz2 : ∀ x : R, x * 0 = 0) (a b : Arr R) (xa xb : List Nat)
+    (ha : a.validB = true) (hfa : a.fermi = false)
+    (h0 : Ctx0 (dropMisaligned a b xa xb).1 (dropMisaligned a b xa xb).2 xa xb)
+    (hneK : xa ≠ []) (hneL : freeAxes a.ndim xa ≠ []) (hneR : freeAxes b.ndim xb ≠ [])
+    (hbl : ((dropMisaligned a b xa xb).1.blocks.isEmpty || (dropMisaligned a b xa xb).2.blocks.isEmpty) = false) :
+    AbOk a b xa xb := by
+  obtain ⟨n1, n2⟩ := dropMisaligned_ndim a b xa xb
+  have h : FusedCtx (dropMisaligned a b xa xb).1 (dropMisaligned a b xa xb).2 xa xb :=
+    ⟨h0.vA, h0.vB, h0.fA, h0.fB, h0.sym, h0.nA, h0.nB, h0.rA, h0.rB, h0.len, hneK,
+      by rw [n1]; exact hneL, by rw [n2]; exact hneR, h0.cm, h0.dual, h0.keys⟩
+  obtain ⟨c, hc_ok, hcv, f1, f2, f3, f4, f5, hrank, hval, hsec⟩ := h.tail hz1 hz2
+  have hshape := h.tail_frame c hc_ok
+  have hfA := FuseP.fuseCore_multi_eq h.vaA h.pairA.groupsOk
+  have hfB := FuseP.fuseCore_multi_eq h.vaB h.pairB.groupsOk
+  rw [n1] at hfA
+  rw [n2] at hfB
+  rw [n1, n2] at hval hsec hrank hshape
+  unfold cfOf at hc_ok
+  rw [n1, n2] at hc_ok
+  have hflow := tensordotViaFused_nonempty a b (freeAxes a.ndim xa) xa xb (freeAxes b.ndim xb)
+    hneL hneK h.neKb hneR hbl _ _ hfA hfB
+  exact abOk_of_aligned a b xa xb ha hfa c (hflow.trans hc_ok) hcv f1 f2 f3 f4 f5 hrank hval hsec hshape
 
 /-- all three groups non-empty -/
 theorem abOk_general [AddCommMonoid R] [Mul R] [Neg R]
@@ -73,23 +102,19 @@ theorem abOk_general [AddCommMonoid R] [Mul R] [Neg R]
     (hnA : xa.Nodup) (hnB : xb.Nodup) (hA : ∀ x ∈ xa, x < a.ndim) (hB : ∀ x ∈ xb, x < b.ndim)
     (hneK : xa ≠ []) (hneL : freeAxes a.ndim xa ≠ []) (hneR : freeAxes b.ndim xb ≠ [])
     (hbl : ((dropMisaligned a b xa xb).1.blocks.isEmpty || (dropMisaligned a b xa xb).2.blocks.isEmpty) = false) :
-    AbOk a b xa xb := by
-  obtain ⟨c, h0, h1, h2, h3, h4, h5, h6, h7, h8, h9⟩ := viaFused_general hz1 hz2 a b xa xb ha hb hfa hfb
-    hsym hc hnA hnB hA hB hneK hneL hneR hbl
-  exact ⟨c, h0, h1, h2, h3, h4, h5, h6, h7, h8, h9,
-    viaFused_general_shape a b xa xb ha hb hfa hfb hsym hc hnA hnB hA hB hneK hneL hneR hbl c h0⟩
+    AbOk a b xa xb :=
+  abOk_general_ctx hz1 hz2 a b xa xb ha hfa
+    (ctx0_of_dropMisaligned a b xa xb ha hb hfa hfb hsym hc hnA hnB hA hB) hneK hneL hneR hbl
 
 /-- full contraction -/
-theorem abOk_scalar [AddCommMonoid R] [Mul R] [Neg R]
+theorem abOk_scalar_ctx [AddCommMonoid R] [Mul R] [Neg R]
     (hz1 : ∀ x : R, 0 * x = 0) (hz2 : ∀ x : R, x * 0 = 0) (a b : Arr R) (xa xb : List Nat)
-    (ha : a.validB = true) (hb : b.validB = true) (hfa : a.fermi = false) (hfb : b.fermi = false)
-    (hsym : a.sym = b.sym) (hc : ValidP.contractibleB a b xa xb = true)
-    (hnA : xa.Nodup) (hnB : xb.Nodup) (hA : ∀ x ∈ xa, x < a.ndim) (hB : ∀ x ∈ xb, x < b.ndim)
+    (ha : a.validB = true) (hfa : a.fermi = false)
+    (h : Ctx0 (dropMisaligned a b xa xb).1 (dropMisaligned a b xa xb).2 xa xb)
     (hneK : xa ≠ []) (hL : freeAxes a.ndim xa = []) (hR : freeAxes b.ndim xb = [])
     (hbl : ((dropMisaligned a b xa xb).1.blocks.isEmpty || (dropMisaligned a b xa xb).2.blocks.isEmpty) = false) :
     AbOk a b xa xb := by
   obtain ⟨n1, n2⟩ := dropMisaligned_ndim a b xa xb
-  have h := ctx0_of_dropMisaligned a b xa xb ha hb hfa hfb hsym hc hnA hnB hA hB
   have hneKb : xb ≠ [] := by
     intro e; have := h.len; rw [e] at this; exact hneK (List.eq_nil_of_length_eq_zero this)
   have hL' : freeAxes (dropMisaligned a b xa xb).1.ndim xa = [] := by rw [n1]; exact hL
@@ -102,11 +127,21 @@ theorem abOk_scalar [AddCommMonoid R] [Mul R] [Neg R]
   rw [n1, n2] at hval hsec
   refine abOk_of_aligned a b xa xb ha hfa (cfVV _ _ xa xb) (by rw [hL, hR]; exact hflow) hcv f1 f2 f3 f4 f5
     (by rw [hidx, hL, hR]; rfl) hval hsec ?_
-  intro K V hl
-  have hs := Arr.shapesOk_of_validB hcv (K, V) (alookup_mem hl)
-  rw [hidx] at hs
-  rw [hL, hR]
-  exact hs
+  rw [hidx, hL, hR]
+  exact .nil
+
+/-- full contraction -/
+theorem abOk_scalar [AddCommMonoid R] [Mul R] [Neg R]
+    (hz1 : ∀ x : R, 0 * x = 0) (hz2 : ∀ x : R, x * 0 = 0) (a b : Arr R) (xa xb : List Nat)
+    (ha : a.validB = true) (hb : b.validB = true) (hfa : a.fermi = false) (hfb : b.fermi = false)
+    (hsym : a.sym = b.sym) (hc : ValidP.contractibleB a b xa xb = true)
+    (hnA : xa.Nodup) (hnB : xb.Nodup) (hA : ∀ x ∈ xa, x < a.ndim) (hB : ∀ x ∈ xb, x < b.ndim)
+    (hneK : xa ≠ []) (hL : freeAxes a.ndim xa = []) (hR : freeAxes b.ndim xb = [])
+    (hbl : ((dropMisaligned a b xa xb).1.blocks.isEmpty || (dropMisaligned a b xa xb).2.blocks.isEmpty) = false) :
+    AbOk a b xa xb :=
+  abOk_scalar_ctx hz1 hz2 a b xa xb ha hfa
+    (ctx0_of_dropMisaligned a b xa xb ha hb hfa hfb hsym hc hnA hnB hA hB) hneK hL hR hbl
+
 
 /-! ### operands of any kind with synced signs -/
 
@@ -122,10 +157,22 @@ theorem kernelOk_of_abOk [AddCommMonoid R] [Mul R] [Neg R] (X Y : Arr R) (xa xb 
     obtain ⟨h1', _, _⟩ := viaFused_empty X Y (freeAxes X.ndim xa) xa xb (freeAxes Y.ndim xb) hb
     rw [h1'] at h1
     cases h1
-    intro K V hl
-    simp [alookup] at hl
+    obtain ⟨n1, n2⟩ := dropMisaligned_ndim X Y xa xb
+    refine ⟨?_, ?_⟩
+    · show List.Forall₂ SizeLe (without (dropMisaligned X Y xa xb).1.indices xa
+        ++ without (dropMisaligned X Y xa xb).2.indices xb) _
+      rw [without_eq_permuted_freeAxes, without_eq_permuted_freeAxes, without_eq_permuted_freeAxes,
+        without_eq_permuted_freeAxes]
+      have e1 : (dropMisaligned X Y xa xb).1.indices.length = X.indices.length := n1
+      have e2 : (dropMisaligned X Y xa xb).2.indices.length = Y.indices.length := n2
+      rw [e1, e2]
+      exact forall₂_append
+        (permuted_dropUnused_sizeLe X.indices _ _ (fun x hx => (mem_freeAxes.mp hx).1))
+        (permuted_dropUnused_sizeLe Y.indices _ _ (fun x hx => (mem_freeAxes.mp hx).1))
+    · intro K V hl
+      simp [alookup] at hl
   | false =>
-    obtain ⟨c0, h0, hvc, f1, f2, f3, f4, f5, hrank, hsec, hval, hshape⟩ := hbl hb
+    obtain ⟨c0, h0, hvc, f1, f2, f3, f4, f5, hrank, hsec, hval, hframe, hshape⟩ := hbl hb
     have e := tensordotViaFused_ab X Y (freeAxes X.ndim xa) xa xb (freeAxes Y.ndim xb)
     have nX : (ab X).ndim = X.ndim := rfl
     have nY : (ab Y).ndim = Y.ndim := rfl
@@ -139,7 +186,7 @@ theorem kernelOk_of_abOk [AddCommMonoid R] [Mul R] [Neg R] (X Y : Arr R) (xa xb 
       subst e
       have hfields := tensordotViaFused_fields hc'
       exact ⟨c, hc', ⟨f1, hfields.1, f3, f4, hfields.2, hrank, hsec, hval⟩,
-        allDistinct_iff_nodup.mp (Arr.allDistinct_of_validB (a := ab c) hvc), hshape⟩
+        allDistinct_iff_nodup.mp (Arr.allDistinct_of_validB (a := ab c) hvc), hframe, hshape⟩
 
 end TdotP
 end SymmModel
